@@ -841,18 +841,24 @@ func execHistory(h *history, sec *vh.Section, section string, quiet bool) (rp *e
 		}
 		ref := expected[i]
 		kind, finding := classifyLoss(proj[i], ref)
+		why := fmt.Sprintf(" [%d of %d expected events present; strict in-order subsequence: %v; saved position at the end of the source: %v", len(proj[i]), len(ref), kind != "", posAtEnd[i])
 		if !posAtEnd[i] {
 			kind = "" // the copy is not finished or the position is stuck: not a jump over events
 		}
-		if kind == "tail-skip" && !runsAtConfirmationBoundaries(r, i, proj[i], ref) {
-			kind = "" // the library race jumps from one confirmed count to a later one: whole batches (or their portions up to a chunk end)
+		if kind == "tail-skip" {
+			ok := runsAtConfirmationBoundaries(r, i, proj[i], ref)
+			why += fmt.Sprintf("; missing runs at confirmation boundaries: %v", ok)
+			if !ok {
+				kind = "" // the library race jumps from one confirmed count to a later one: whole batches (or their portions up to a chunk end)
+			}
 		}
+		why += fmt.Sprintf("; missing source indices: %s]", missingSeqs(proj[i], ref))
 		switch kind {
 		case "tail-skip":
 			fail("tail-skip", in+fmt.Sprintf("the pipe's saved position stands at the end of the source, yet %d of its events in %d contiguous run(s) were never copied; everything else is there once, in order, unaltered (a reader at the tail stepped over freshly confirmed records)", len(ref)-len(proj[i]), missingRuns(proj[i], ref)),
 				clip(projLine(proj[i])), clip(projLine(ref)), finding, true)
 		default:
-			fail(diffKind(proj[i], ref), in+"the pipe partition differs from the events written after creation to a matching source that satisfy the filter (once, stored order, ts/msg unchanged, tags appended as fields)",
+			fail(diffKind(proj[i], ref), in+"the pipe partition differs from the events written after creation to a matching source that satisfy the filter (once, stored order, ts/msg unchanged, tags appended as fields)"+why,
 				clip(projLine(proj[i])), clip(projLine(ref)), "", implEqModel)
 		}
 	}
@@ -1000,6 +1006,39 @@ func runsAtConfirmationBoundaries(r *runner, src int, got, want []ev) bool {
 		return false
 	}
 	return true
+}
+
+// missingSeqs renders the source indices of the expected events that are not in got, as ranges
+func missingSeqs(got, want []ev) string {
+	have := map[string]bool{}
+	for _, g := range got {
+		have[g.Msg] = true
+	}
+	var parts []string
+	start, prev := -1, -1
+	flush := func() {
+		if start >= 0 {
+			parts = append(parts, fmt.Sprintf("%d-%d", start, prev))
+		}
+	}
+	for _, w := range want {
+		if have[w.Msg] {
+			continue
+		}
+		var s, q int
+		fmt.Sscanf(w.Msg, "s%d#%d ", &s, &q)
+		if start >= 0 && q == prev+1 {
+			prev = q
+			continue
+		}
+		flush()
+		start, prev = q, q
+	}
+	flush()
+	if len(parts) > 12 {
+		parts = append(parts[:12], "…")
+	}
+	return strings.Join(parts, ",")
 }
 
 func missingRuns(got, want []ev) int {
